@@ -1,6 +1,12 @@
 // instantiation TU for cxx2coq (C20): the block-size correction used by pvGetMemPoolParams
-// (pool_allocator.h:169-173 -> MemPoolParams ctor, MemPool.h:78-83 -> MemPoolConst::CorrectBlockSize).
+// (pool_allocator.h:169-173 -> MemPoolParams ctor, MemPool.h:78-83 -> MemPoolConst::CorrectBlockSize), and the
+// members of the allocator's MemPool that decide whether freed blocks are parked (pvUseCache) and whether the
+// destructor can return whole buffers (CanDeallocateAll).
 #include "momo/stdish/pool_allocator.h"
 namespace momo { namespace internal {
 template size_t UIntMath<size_t>::Ceil(size_t, size_t) noexcept;
-}}
+}
+typedef MemPool<MemPoolParams<>, MemManagerDefault, MemPoolSettings> VPool;
+template bool VPool::pvUseCache() const noexcept;
+template bool VPool::CanDeallocateAll() const noexcept;
+}
